@@ -107,6 +107,20 @@ def project(v):
         return '%d %s' % (v.digits, v.letters)
     if isinstance(v, values.Money):
         return '%d %s' % (v.amount, v.currency.name)
+    if isinstance(v, values.Company3):
+        # index_attribute_to_map('employees', 'name'): the items lose their
+        # name -- the items, not other references to the same object
+        return OrderedDict([
+            ('employees', OrderedDict(
+                (k, OrderedDict([('role', e.role), ('hours', e.hours)]))
+                for k, e in v.employees.items())),
+            ('boss', project(v.boss))])
+    if isinstance(v, values.Team3):
+        return OrderedDict([
+            ('members', OrderedDict(
+                (e.name, OrderedDict([('role', e.role), ('hours', e.hours)]))
+                for e in v.members)),
+            ('lead', project(v.lead))])
     if isinstance(v, values.Special):
         return values._special_projection(v.x)
     if isinstance(v, values.Nulled):
